@@ -35,7 +35,7 @@ def _replay_line(b):
         return None if a == -1 else a
 
     bad = []
-    out, val, counts = monitor.call(mk.multi_knee, (det, P, 0.0, t2), budget=50 * n + 200, wall=10)
+    out, val, counts = monitor.call(mk.multi_knee, (det, P, 0.0, t2), budget=monitor.quad(n), wall=30, per={"multi_knee": 8 * n + 64})
     if out != "returned":
         return [("terminates" if out in ("budget", "watchdog") else "returns", {"outcome": out, "error": val})]
     got = [int(v) for v in np.asarray(val).tolist()]
@@ -47,7 +47,7 @@ def _replay_line(b):
     # straight carrier: nothing is curved for t1 > 0, the result must be empty and the detector never asked
     Q = np.column_stack([x, 3.0 * x + 1.0])
     asked2 = []
-    out, val, _ = monitor.call(mk.multi_knee, (lambda pt: asked2.append(1) or 1, Q, 0.001, t2), budget=50 * n + 200, wall=10)
+    out, val, _ = monitor.call(mk.multi_knee, (lambda pt: asked2.append(1) or 1, Q, 0.001, t2), budget=monitor.quad(n), wall=30, per={"multi_knee": 8 * n + 64})
     if out != "returned" or len(np.asarray(val)) != 0 or asked2:
         bad.append(("empty-gate", {"outcome": out, "result": str(val), "asked": len(asked2)}))
     return bad
@@ -60,7 +60,7 @@ def _record(item):
     P = np.asarray(P, float)
     n = len(P)
     mod = _mod(det)
-    out, val, counts = monitor.call(mod.multi_knee, (P, t1, t2), budget=4000 * n + 20000, wall=30)
+    out, val, counts = monitor.call(mod.multi_knee, (P, t1, t2), budget=monitor.quad(n, 200), wall=60, per={"multi_knee": 8 * n + 64})
     case = {"id": cid, "n": n, "t2": t2, "outcome": out, "pops": counts.get("multi_knee", 0),
             "exempt_interior": det == "menger", "result": []}
     if out == "returned":
@@ -77,7 +77,7 @@ def _record(item):
                 C[l][r] = bool(lf.smape_points(pt, coef) >= t1)
             except Exception:
                 C[l][r] = False
-            o2, v2, _ = monitor.call(mod.knee, (pt,), budget=4000 * n + 20000, wall=30)
+            o2, v2, _ = monitor.call(mod.knee, (pt,), budget=monitor.quad(n, 200), wall=60)
             if o2 == "returned":
                 K[l][r] = -1 if v2 is None else int(v2)
     case["K"] = K
@@ -115,7 +115,7 @@ def _record_long(item):
         y = 50.0 + 40.0 * np.exp(-x / (n / 6.0)) + np.array([0.01 * rng.random() for _ in range(n)])
     P = np.column_stack([x, y])
     mod = _mod(det)
-    out, val, counts = monitor.call(mod.multi_knee, (P, t1, t2), budget=400 * n + 200000, wall=120)
+    out, val, counts = monitor.call(mod.multi_knee, (P, t1, t2), budget=monitor.quad(n, 200), wall=600, per={"multi_knee": 8 * n + 64})
     case = {"id": cid, "n": n, "t2": t2, "outcome": out, "pops": counts.get("multi_knee", 0), "exempt_interior": det == "menger",
             "result": [int(v) for v in np.asarray(val).tolist()] if out == "returned" else [], "K": [], "C": [], "sparse": True, "tab": []}
     todo = [(0, n)]
@@ -131,7 +131,7 @@ def _record_long(item):
         if not g:
             tab.append([l, r, -1, False])
             continue
-        o2, v2, _ = monitor.call(mod.knee, (P[l:r],), budget=400 * n + 200000, wall=120)
+        o2, v2, _ = monitor.call(mod.knee, (P[l:r],), budget=monitor.quad(n, 200), wall=600)
         k = -2 if o2 != "returned" else (-1 if v2 is None else int(v2))
         tab.append([l, r, k, True])
         if k >= 0:
